@@ -72,7 +72,7 @@ func (r *radSrv) setMode(mode string) {
 		return
 	}
 	if r.conn == nil {
-		for i := 0; i < 200; i++ {
+		for i := 0; i < 5000; i++ {
 			c, err := net.ListenUDP("udp4", &net.UDPAddr{IP: net.IPv4(127, 0, 0, 1), Port: r.port})
 			if err == nil {
 				r.conn = c
@@ -126,13 +126,28 @@ func (r *radSrv) loop(c *net.UDPConn) {
 
 type run struct {
 	s      *pppoe.Server
-	sock   *pppoe.VerifSocket
+	sock   *pppoe.VerifRxSocket
 	rad    *radSrv
 	radius bool
+	cancel context.CancelFunc
+}
+
+// feed hands one whole Ethernet frame to the server's own receiveLoop (one reused receive buffer, as in production)
+func (r *run) feed(src net.HardwareAddr, etherType uint16, payload []byte) {
+	fr := make([]byte, 14+len(payload))
+	copy(fr[0:6], serverMAC)
+	copy(fr[6:12], src)
+	binary.BigEndian.PutUint16(fr[12:14], etherType)
+	copy(fr[14:], payload)
+	r.sock.Feed(fr)
 }
 
 func (comp) NewRun() hx.Run { return &run{} }
 func (r *run) Close() {
+	if r.cancel != nil {
+		r.cancel()
+		r.s.Stop()
+	}
 	if r.rad != nil {
 		r.rad.close()
 	}
@@ -266,11 +281,13 @@ func (r *run) Do(op string) string {
 		}
 		cfg := pppoe.ServerConfig{Interface: "verif0", ServerIP: "10.77.0.1", ClientPool: fmt.Sprintf("10.77.0.0/%d", bits),
 			PoolGateway: "10.77.0.1", PrimaryDNS: "9.9.9.9"}
-		s, sock, err := pppoe.NewServerForVerif(cfg, zap.NewNop(), serverMAC)
+		ctx, cancel := context.WithCancel(context.Background())
+		s, sock, err := pppoe.NewServerRxForVerif(ctx, cfg, zap.NewNop(), serverMAC)
 		if err != nil {
+			cancel()
 			return "error " + err.Error()
 		}
-		r.s, r.sock = s, sock
+		r.s, r.sock, r.cancel = s, sock, cancel
 		if r.radius {
 			r.rad = newRadSrv()
 			cl, err := bngradius.NewClient(bngradius.ClientConfig{
@@ -294,23 +311,23 @@ func (r *run) Do(op string) string {
 	sidOf := func(i int) uint16 { n, _ := strconv.Atoi(f[i]); return uint16(n) }
 	switch f[0] {
 	case "padi":
-		r.s.HandleDiscoveryForVerif(src, disc(pppoe.CodePADI, 0, []pppoe.Tag{{Type: pppoe.TagServiceName}, {Type: pppoe.TagHostUniq, Value: []byte{1, 2}}}))
+		r.feed(src, pppoe.EtherTypePPPoEDiscovery, disc(pppoe.CodePADI, 0, []pppoe.Tag{{Type: pppoe.TagServiceName}, {Type: pppoe.TagHostUniq, Value: []byte{1, 2}}}))
 	case "padr":
 		tags := []pppoe.Tag{{Type: pppoe.TagServiceName}}
 		if f[2] == "cookie" {
 			tags = append(tags, pppoe.Tag{Type: pppoe.TagACCookie, Value: []byte("0123456789abcdef")})
 		}
 		before := len(r.s.SessionsForVerif())
-		r.s.HandleDiscoveryForVerif(src, disc(pppoe.CodePADR, 0, tags))
+		r.feed(src, pppoe.EtherTypePPPoEDiscovery, disc(pppoe.CodePADR, 0, tags))
 		if len(r.s.SessionsForVerif()) > before {
 			// PADS + the LCP Configure-Request sent by the goroutine the server starts
-			deadline := time.Now().Add(3 * time.Second)
+			deadline := time.Now().Add(20 * time.Second)
 			for r.sock.Count() < 2 && time.Now().Before(deadline) {
 				time.Sleep(50 * time.Microsecond)
 			}
 		}
 	case "padt":
-		r.s.HandleDiscoveryForVerif(src, disc(pppoe.CodePADT, sidOf(2), nil))
+		r.feed(src, pppoe.EtherTypePPPoEDiscovery, disc(pppoe.CodePADT, sidOf(2), nil))
 	case "lcp":
 		var body []byte
 		switch f[3] {
@@ -329,7 +346,7 @@ func (r *run) Do(op string) string {
 		default:
 			return "badop"
 		}
-		r.s.HandleSessionForVerif(src, sess(sidOf(2), pppoe.ProtocolLCP, body))
+		r.feed(src, pppoe.EtherTypePPPoESession, sess(sidOf(2), pppoe.ProtocolLCP, body))
 	case "pap":
 		if r.rad != nil {
 			r.rad.setMode(f[4])
@@ -340,7 +357,7 @@ func (r *run) Do(op string) string {
 		} else if f[3] == "empty" {
 			pass = ""
 		}
-		r.s.HandleSessionForVerif(src, sess(sidOf(2), pppoe.ProtocolPAP, papReq(5, "user"+f[1], pass)))
+		r.feed(src, pppoe.EtherTypePPPoESession, sess(sidOf(2), pppoe.ProtocolPAP, papReq(5, "user"+f[1], pass)))
 	case "ipcp":
 		var body []byte
 		switch f[3] {
@@ -355,9 +372,9 @@ func (r *run) Do(op string) string {
 		default:
 			return "badop"
 		}
-		r.s.HandleSessionForVerif(src, sess(sidOf(2), pppoe.ProtocolIPCP, body))
+		r.feed(src, pppoe.EtherTypePPPoESession, sess(sidOf(2), pppoe.ProtocolIPCP, body))
 	case "ip":
-		r.s.HandleSessionForVerif(src, sess(sidOf(2), pppoe.ProtocolIP, []byte{0x45, 0, 0, 20}))
+		r.feed(src, pppoe.EtherTypePPPoESession, sess(sidOf(2), pppoe.ProtocolIP, []byte{0x45, 0, 0, 20}))
 	case "sweep":
 		r.s.CleanupExpiredForVerif(-1)
 	default:
